@@ -147,7 +147,14 @@ pub fn read_deviations_on(rep: &mut Report, root: &std::path::Path, prop: &str, 
             std::fs::read_to_string(wk.dir.join("shim.log")).unwrap_or_default().lines().filter(|l| l.starts_with("R ")).count()
         };
         let (n1, n2) = (count(&wk), count(&wk));
-        if n1 == 0 || n1 != n2 {
+        if n1 == 0 && n2 == 0 {
+            // the undisturbed run on the world under test fails although the reference world's run succeeded: that is a
+            // disagreement between the two worlds (C11: obfuscated vs plaintext), not a problem of the harness
+            let r = wk.run(&rspec(cb, ""));
+            rep.disagree("undisturbed-run-fails-on-the-world-under-test", format!("{} {}: exit {:?}: {}", label, cb, r.code, r.stderr.lines().next().unwrap_or("")), replay_case(world, &rspec(cb, ""), json!({"must": "succeed like the run on the reference world"}), &r, &wk.dir));
+            return;
+        }
+        if n1 != n2 {
             return rep.machinery(format!("read deviations: {} issues {} / {} reads on blk files in two fault-free runs", cb, n1, n2));
         }
         rep.count(&format!("{}:blk-reads:{}", label, cb), n1 as u64);
@@ -346,7 +353,7 @@ pub fn run() -> Report {
     for cb in CBS {
         for h in 0..6u64 {
             let flen = small.files[&h].len;
-            for f in ["removed", "emptied", "offset-past-eof", "offset-in-last-3-bytes", "offset-plus-2^32", "offset-plus-2^33", "offset-with-bit-63", "offset-plus-2^16-past-eof"] {
+            for f in ["removed", "emptied", "offset-past-eof", "offset-in-last-3-bytes", "offset-plus-2^32", "offset-plus-2^33", "offset-with-bit-63", "offset-plus-2^16-past-eof", "pruned"] {
                 cases.push(Case::Input { cb, height: h, fault: f.into(), range: (None, None) });
                 // the same fault with the block being the first / an inner / the last block of a requested range
                 for (rs, re) in [(Some(2u64), None), (None, Some(3u64)), (Some(1), Some(4))] {
@@ -432,6 +439,14 @@ pub fn run() -> Report {
                         "emptied" => {
                             f.chunks.clear();
                             f.len = 0;
+                        }
+                        // what a pruning node leaves: the blk file is gone and the index record says so (validity kept, no
+                        // HAVE_DATA / HAVE_UNDO, no file position)
+                        "pruned" => {
+                            world.files.remove(height);
+                            let mut r = recs[*height as usize].clone();
+                            r.status = refmodel::world::VALID_SCRIPTS;
+                            world.put_rec(&r);
                         }
                         "offset-past-eof" => {
                             let mut r = recs[*height as usize].clone();
